@@ -254,8 +254,11 @@ func (c *wsConn) GetResource(rid string, cb func(data *rpc.Resources, err error)
 				return
 			}
 
+			// A get response does not leave the client subscribed to, and
+			// thereby not holding, the resources. They must not be marked as
+			// sent, nor should their queued events be sent.
 			cb(sub.GetRPCResources(false), nil)
-			sub.ReleaseRPCResources()
+			sub.CancelRPCResources()
 			c.Unsubscribe(sub, true, false, 1, true)
 		})
 	})
